@@ -260,19 +260,24 @@ func runC18Adapter(rc *RunCtx) {
 	defer cancel()
 	wo, we, flush := subprocess.VerifNewStreamAdapters(ctx, lg)
 	co, ce := so.chunks(), se.chunks()
+	// like os/exec's copier, every stream hands its chunks over in ONE reused buffer: an adapter that keeps a
+	// reference into it instead of copying would see its kept bytes overwritten by the next chunk
+	bufO, bufE := make([]byte, 0, 1<<20), make([]byte, 0, 1<<20)
 	// interleave the two streams in a seeded order (each stream keeps its own order)
 	i, j := 0, 0
 	for i < len(co) || j < len(ce) {
 		pickOut := j >= len(ce) || (i < len(co) && ch.Intn("interleave", 2) == 0)
 		if pickOut {
-			n, err := wo.Write([]byte(co[i]))
+			bufO = append(bufO[:0], co[i]...)
+			n, err := wo.Write(bufO)
 			if err != nil || n != len(co[i]) {
 				res.Violate("adapter-write", "adapter|write-failed", fmt.Sprintf("%s: Write returned (%d, %v) for a chunk of %d bytes", res.Config, n, err, len(co[i])))
 				return
 			}
 			i++
 		} else {
-			n, err := we.Write([]byte(ce[j]))
+			bufE = append(bufE[:0], ce[j]...)
+			n, err := we.Write(bufE)
 			if err != nil || n != len(ce[j]) {
 				res.Violate("adapter-write", "adapter|write-failed", fmt.Sprintf("%s: Write returned (%d, %v) for a chunk of %d bytes", res.Config, n, err, len(ce[j])))
 				return
@@ -501,23 +506,29 @@ func runC18Process(rc *RunCtx) {
 			viol("failure-reported-as-success|"+map[int]string{1: "exit-code", 2: "signal-" + sig}[ending], "the child ended with "+what+" but nil was returned")
 		}
 	}
-	// messages
-	out, errs := rec.out, rec.err
+	// messages (a cancelled run gets a moment more: whatever the library's monitoring task still logs after the call
+	// returned counts - "exactly one of the success / failure messages")
+	if cancelAt >= 0 {
+		time.Sleep(300 * time.Millisecond)
+	}
+	rec.mu.Lock()
+	out, errs, all := append([]string{}, rec.out...), append([]string{}, rec.err...), append([]string{}, rec.all...)
+	rec.mu.Unlock()
 	if !useOutput {
-		if len(rec.all) == 0 || rec.all[0] != "O:START-MESSAGE" {
-			viol("start-message-not-first", fmt.Sprintf("first message is %.60q", first(rec.all)))
+		if len(all) == 0 || all[0] != "O:START-MESSAGE" {
+			viol("start-message-not-first", fmt.Sprintf("first message is %.60q", first(all)))
 		} else {
 			out = out[1:]
 		}
 		nEnd := 0
-		for _, m := range rec.all {
+		for _, m := range all {
 			if m == "O:SUCCESS-MESSAGE" || strings.HasPrefix(m, "E:FAILURE-MESSAGE") {
 				nEnd++
 			}
 		}
 		last := ""
-		if len(rec.all) > 0 {
-			last = rec.all[len(rec.all)-1]
+		if len(all) > 0 {
+			last = all[len(all)-1]
 		}
 		if nEnd != 1 || !(last == "O:SUCCESS-MESSAGE" || strings.HasPrefix(last, "E:FAILURE-MESSAGE")) {
 			viol("end-message", fmt.Sprintf("%d success/failure messages were logged, the last message is %.60q", nEnd, last))
